@@ -23,6 +23,7 @@ var (
 	flagN        = flag.Int("n", 200, "cases")
 	flagOut      = flag.String("out", "", "output file")
 	flagThorough = flag.Bool("thorough", false, "thorough tier")
+	flagOnly     = flag.Int("only", -1, "run only this case number (cluster engine)")
 )
 
 type stats struct {
@@ -783,6 +784,20 @@ func TestEngine(t *testing.T) {
 			for k := 0; k < *flagN; k++ {
 				runHandlersCase(rng, *flagThorough, out, st, seen)
 			}
+		case "cluster":
+			st.Rule = "3 or 5 real servers with their full run loops in one synctest bubble (virtual time; Heartbeat/Election/Lease 50ms, TrailingLogs 3, MaxAppendEntries 4), every RPC through a fault-injecting proxy (delay up to 40ms, drop up to 20%, duplicated AppendEntries up to 30%, directed link cuts, isolation); 40..120 [thorough: 100..400] steps of: client Apply 45% (3/4 at the leader), Barrier 5%, VerifyLeader 5%, partition 8%, heal 7%, network weather 5%, crash/restart 5%, user snapshot 5%, leadership transfer 3%, follower disk fault 3%, demote/promote 3%; then heal + restart all, 3 s quiet, final writes, dumps; every case counts as non-trivial (each elects a leader and commits)"
+			for k := 0; k < *flagN; k++ {
+				if *flagOnly >= 0 && k != *flagOnly {
+					continue
+				}
+				// one PRNG per case, so that a case replays alone
+				runClusterCase(rand.New(rand.NewSource(*flagSeed*1000003+int64(k))), *flagThorough, out, st, k)
+			}
+			out.Flush()
+			fh.Close()
+			js, _ := json.MarshalIndent(st, "", " ")
+			os.WriteFile(*flagOut+".stats.json", js, 0o644)
+			os.Exit(17) // goroutines of the servers' proxies are still parked: a bubble cannot end cleanly
 		case "universe":
 			st.Rule = "one real server (a voter) in a Raft-consistent universe: the harness keeps a committed history H and one log per elected term (each holding H as of its election) and produces the AppendEntries / InstallSnapshot / RequestVote / RequestPreVote messages such leaders and candidates could send (stale nextIndex, stale commit index, old terms included); every message stays in a pool and is delivered late, twice or out of order; 1/10 of the deliveries with a failing store write, 1/10 with a crash at a write ordinal, restarts; the initial image is a prefix of some leader's log, optionally snapshotted and compacted; non-trivial = some request was granted / succeeded"
 			seen := map[string]bool{}
